@@ -195,6 +195,9 @@ class Sandbox:
             self._stop_mocking(context)
             self._capture_exception(system_exit, sys.exc_info(),
                                     code, filename)
+        except BaseException:
+            self._stop_mocking(context)
+            raise
         else:
             self._stop_mocking(context)
 
